@@ -38,7 +38,7 @@ type c08Witness struct {
 func init() {
 	core.Register(&core.Check{
 		ID:   "C08",
-		Rule: "part A (status selection): every non-empty subset of the response keys {1XX,200,201,2XX,4XX,default} (thorough: 12 keys incl. 3XX, 5XX, 404, 100, 204, 500: 4095 subsets), each entry accepting only its own index as JSON body, x 18 statuses (thorough: 30) x methods GET/HEAD x every index body x IncludeResponseStatus on/off: the accepted index identifies the selected entry (exact, then class, then default); unchecked statuses 301/304/307/308 and HEAD; part B (headers): a declared response header of primitive/array/object type, required or not, x present-valid / present-violating / unparsable / absent x MultiError; header names declared in 5 spellings (canonical, lower, mixed) by schema and by content; part C (content): declared vs undeclared content types, entries without schema, bodies valid / violating / syntactically broken (short and long) / with trailing bytes / of a type without decoder, readOnly/writeOnly/required object schemas x ExcludeWriteOnlyValidations / ExcludeResponseBody; after every call the response body must still be readable and byte-identical. Distinct = full case tuple; non-trivial = at least one entry is declared (always). Header shapes include an array with minItems 1 sent with an empty value (must be rejected).",
+		Rule: "part A (status selection): every non-empty subset of the response keys {1XX,200,201,2XX,4XX,default} (thorough: 12 keys incl. 3XX, 5XX, 404, 100, 204, 500: 4095 subsets), each entry accepting only its own index as JSON body, x 18 statuses (thorough: 30) x methods GET/HEAD x every index body x IncludeResponseStatus on/off: the accepted index identifies the selected entry (exact, then class, then default); unchecked statuses 301/304/307/308 and HEAD; part B (headers): a declared response header of primitive/array/object type, required or not, x present-valid / present-violating / unparsable / absent x all 16 combinations of MultiError / ExcludeResponseBody / IncludeResponseStatus / ExcludeWriteOnlyValidations; header names declared in 5 spellings (canonical, lower, mixed) by schema and by content; part C (content): declared vs undeclared content types, entries without schema, bodies valid / violating / syntactically broken (short and long) / with trailing bytes / of a type without decoder, readOnly/writeOnly/required object schemas x ExcludeWriteOnlyValidations / ExcludeResponseBody; after every call the response body must still be readable and byte-identical. Distinct = full case tuple; non-trivial = at least one entry is declared (always). Header shapes include an array with minItems 1 sent with an empty value (must be rejected).",
 		Assumptions: []string{
 			"reference: exact status, then status class, then default; no entry passes unless IncludeResponseStatus; as-response reading: writeOnly forbidden and not required, readOnly allowed",
 			"trailing bytes after the first JSON value carry no verdict (decoder convention), only the readability assertion",
@@ -282,7 +282,11 @@ func c08Headers(c *core.Ctx, hi int) {
 		}
 		cases = append(cases, hc{"absent", nil})
 		for _, cs := range cases {
-			for _, multi := range []bool{false, true} {
+			// every combination of the four response options: none of them touches the header checks of the selected entry
+			for oi := 0; oi < 16; oi++ {
+				multi := oi&1 != 0
+				opt := openapi3filter.Options{MultiError: multi, ExcludeResponseBody: oi&2 != 0, IncludeResponseStatus: oi&4 != 0, ExcludeWriteOnlyValidations: oi&8 != 0}
+				oname := fmt.Sprintf("MultiError=%v ExcludeResponseBody=%v IncludeResponseStatus=%v ExcludeWriteOnlyValidations=%v", opt.MultiError, opt.ExcludeResponseBody, opt.IncludeResponseStatus, opt.ExcludeWriteOnlyValidations)
 				for _, status := range []int{200, 404} {
 					hdr := http.Header{}
 					if cs.val != nil {
@@ -291,11 +295,12 @@ func c08Headers(c *core.Ctx, hi int) {
 						}
 					}
 					hdr.Set("X-Unrelated", "1")
-					desc := fmt.Sprintf("header shape=%s required=%v class=%s value=%q multi=%v status=%d", sh.name, required, cs.class, hdr.Values("X-R"), multi, status)
+					desc := fmt.Sprintf("header shape=%s required=%v class=%s value=%q options=[%s] status=%d", sh.name, required, cs.class, hdr.Values("X-R"), oname, status)
 					c.Begin(desc)
 					c.Eval()
-					verr, after, rerr, pi := c08Run(router, "GET", status, hdr, []byte("x"), &openapi3filter.Options{MultiError: multi})
-					w := c08Witness{Part: "header", Status: status, Method: "GET", Header: hdr, Body: "x", Options: fmt.Sprintf("MultiError=%v required=%v", multi, required), Got: fmt.Sprint(verr)}
+					o := opt
+					verr, after, rerr, pi := c08Run(router, "GET", status, hdr, []byte("x"), &o)
+					w := c08Witness{Part: "header", Status: status, Method: "GET", Header: hdr, Body: "x", Options: fmt.Sprintf("%s required=%v", oname, required), Got: fmt.Sprint(verr)}
 					w.Schema, _ = json.Marshal(sh.schema)
 					if pi != nil {
 						c.Violate(core.PanicFeatures(pi), w, pi.Stack)
@@ -303,6 +308,10 @@ func c08Headers(c *core.Ctx, hi int) {
 					}
 					c.Distinct(desc)
 					want := true
+					if status == 404 && opt.IncludeResponseStatus {
+						want = false // no entry for the status and strict status checking requested
+					}
+					c.Cover("header_options", oname)
 					if status == 200 {
 						switch cs.class {
 						case "violating", "unparsable":
